@@ -35,7 +35,7 @@ NOTES = ("All checks: ./check <ID> --tier quick|thorough; VERIF_SEED selects the
 PROPS["C01"] = {
     "level": "exploration",
     "technique": "property-based testing (rapidcheck): encode/decode round trip against getter snapshots of the source packets",
-    "rule": "cases = generated batches of 1..12 (thorough ..40) packet recipes of all payload kinds x DataContext{min,max} x "
+    "rule": "cases = generated batches of 1..12 (thorough ..40) packet recipes of all payload kinds x DataContext{min,max} (max 25..65559 and, rarely, up to 300000) x every encode entry point x "
             "encoder ids, half of them preceded by 1..3 earlier encode calls on the same encoder object; a case is non-trivial when the batch needs segmentation, or aggregates >=2 packets into one frame, "
             "or mixes message types, or has a payload length within +-2 of the fit boundary; distinct = distinct "
             "serialized cases (64-bit hash)",
@@ -299,7 +299,7 @@ PROPS["C11"] = {
     "level": "exploration",
     "technique": "stateful property-based testing (rapidcheck) + exhaustive value sweeps: every setter against a field-map model, all getters compared after each write",
     "rule": "cases = (class out of 18 header / payload classes incl. TECMP, prior state from an all-zero / all-ones / pseudo-random image, "
-            "sequence of 1..16 (thorough ..40) in-range writes) and, exhaustively, every in-range value of every field <= 16 bits on the "
+            "sequence of 1..16 (thorough ..40) in-range writes incl. the TECMP group setters of 0..12 raw bytes) and, exhaustively, every in-range value of every field <= 16 bits on the "
             "three backgrounds with boolean flags set and cleared in both orders; non-trivial when a write on a non-zero background "
             "changes the value; distinct = distinct serialized cases (an exhaustive sweep case covers up to 65536 writes, counted in "
             "counters.writes)",
@@ -342,7 +342,7 @@ PROPS["C12"] = {
 PROPS["C13"] = {
     "level": "exploration",
     "technique": "stateful + metamorphic property-based testing (rapidcheck) and exhaustive length sweeps: builder histories checked by getters, an independent parse of the raw bytes, the library's validator/decoder and a fresh-object comparison",
-    "rule": "cases = (payload class, history of 0..5 (thorough ..8) earlier setData / header writes with other lengths and contents, final "
+    "rule": "cases = (payload class, start object default-constructed or constructed from independently laid-out raw bytes with 0..40 slack bytes, history of 0..5 (thorough ..8) earlier setData / header writes with other or exactly the same lengths and other contents, final "
             "header values + data); exhaustive: every CAN / CAN-FD / LIN data length 0..255, Ethernet / analog 0..300 + boundaries up to "
             "65529 / 65519, all string-length parities of the capture-module payload, stream-id lists of every parity; non-trivial when "
             "the object held data of another length before, or the content has an odd-length list / padded string; distinct = distinct "
@@ -365,7 +365,7 @@ PROPS["C14"] = {
     "level": "exploration",
     "technique": "property-based testing (rapidcheck) + exhaustive shape/relation/operation product: getter snapshots before/after copy, move and assignment, equality laws",
     "rule": "cases = (domain Packet / ASAM payload / TECMP payload, source and target of every kind incl. the payload-less packet, "
-            "zero-length payloads, payloads with an invalid type and payloads rejected by validation, target relation independent / copy / copy with another payload type / copy with exactly one header field changed / self, operation copy-construct / "
+            "zero-length payloads, payloads with an invalid type and payloads rejected by validation, target relation independent / copy / copy with another payload type / copy with exactly one bit of one header field changed (every field x bit position enumerated) / self, operation copy-construct / "
             "copy-assign / move-construct / move-assign incl. self-assignment and self-move-assignment), followed by mutation of either "
             "side and destruction of the source; non-trivial when the target already held a payload, a length is zero, the source has no "
             "payload, or the pair is equal-looking; distinct = distinct serialized cases",
@@ -386,7 +386,7 @@ PROPS["C16"] = {
     "level": "exploration",
     "technique": "stateful property-based testing (rapidcheck) + bounded exhaustive enumeration of operation sequences against a latest-message map model",
     "rule": "cases = sequences of {update(capture-module status | interface status | data packet | message of another kind (other status payload types, vendor, control, invalid-typed) of device d, interface i), "
-            "removeDeviceById, removeInterfaceById, clear} over d in {0,1,2,3,65535}, i in {0,1,2,0xFFFFFFFF}, packets built through the "
+            "removeDeviceById, removeInterfaceById, clear} over d in {0,1,2,3,65535}, i in {0,1,2,0xFFFFFFFF} or, in half of the cases, over a base id plus arithmetically related ids (x+1, x+32, x+64, x+128, x+256, top bit flipped; interfaces also x+65536); the exhaustive alphabet is run under three id mappings (plain, congruent mod 64, congruent mod 256), packets built through the "
             "API or obtained from Decoder::decode; exhaustive: all sequences up to length 4 (thorough 5) over a 13-operation alphabet, "
             "random up to 60 (thorough 120) operations; non-trivial when an effective removal / clear is followed by a further status "
             "update; distinct = distinct serialized sequences",
